@@ -221,7 +221,22 @@ def run(ctx):
     # xml_standalone copied
     st = [pos for pos, s in du.iter_stmts() if s['k'] == 'assign' and ends_in_field(s['dst'], 'ArxmlFileRaw.xml_standalone')]
     rd = [pos for pos, role, pl, s in iter_uses(du) if is_local_op(pl) and has_field(pl, 'ArxmlFileRaw.xml_standalone') and role.startswith('use')]
-    C.check(len(st) == 1 and len(rd) >= 1, 'C13-MUST-duplicate', 'xml_standalone-copied', 'xml_standalone is not transferred to the duplicate')
+    okdir = len(st) == 1 and len(rd) >= 1
+    if okdir:
+        sst = du.blocks[st[0][0]]['stmts'][st[0][1]]
+        dn, dc_, df = deep_sources(du, {'l': sst['dst']['l'], 'p': []}, depth=14)
+        rv = sst['rv']
+        vsrc = [o for o in ([rv['pl']] if 'pl' in rv else [rv.get('o')]) if isinstance(o, dict)]
+        vn, vc, vf = deep_sources(du, vsrc[0], depth=14) if vsrc else (set(), set(), set())
+        # written on a file created for the copy, read from a file of the original
+        okdir = any(c.endswith('AutosarModel>::create_file') for c in dc_) and not any(c.endswith('AutosarModel>::create_file') for c in vc) and 'ArxmlFileRaw.xml_standalone' in vf
+    C.check(okdir, 'C13-MUST-duplicate', 'xml_standalone-copied', 'xml_standalone is not transferred from the original file to the file created for the duplicate (missing, or written in the wrong direction: the original is modified and the copy never gets the flag)',
+            du.where(st[0]) if st else '', sample={'fn': 'duplicate', 'store': 'new_file.xml_standalone = orig_file.xml_standalone'})
+    # duplicate() never writes through a handle of the original model: every write lock / store target derives from the new model
+    for pos, s_ in du.iter_stmts():
+        if s_['k'] == 'assign' and any(p_.startswith('.ArxmlFileRaw.') or p_.startswith('.ElementRaw.') or p_.startswith('.AutosarModelRaw.') for p_ in s_['dst'].get('p', [])):
+            dn, dc_, df = deep_sources(du, {'l': s_['dst']['l'], 'p': []}, depth=14)
+            C.check('self' not in dn, 'C13-MUST-duplicate', 'no-store-into-the-original|%s' % [p_ for p_ in s_['dst']['p'] if p_.startswith('.')][-1], 'duplicate() stores into an object reached from the original model (self): the source of a duplication must stay unchanged', du.where(pos))
     # membership rebuilt from the new model's file handles only
     ins = []
     for pos, t in du.iter_calls():
